@@ -188,6 +188,13 @@ impl EventLoop {
 
         let inflight_full = self.state.inflight >= self.state.max_outgoing_inflight;
         let collision = self.state.collision.is_some();
+        // Retransmissions of the previous connection (they carry their packet id) go out
+        // whatever the window says: it was emptied when the connection failed. Requests that
+        // were merely carried over from the channel are new work and obey flow control.
+        let replay = matches!(
+            self.pending.front(),
+            Some(Request::Publish(publish)) if publish.pkid != 0
+        ) || matches!(self.pending.front(), Some(Request::PubRel(_)));
 
         // Read buffered events from previous polls before calling a new poll
         if let Some(event) = self.state.events.pop_front() {
@@ -230,7 +237,7 @@ impl EventLoop {
                 &mut self.pending,
                 &self.requests_rx,
                 self.options.pending_throttle
-            ), if !self.pending.is_empty() || (!inflight_full && !collision) => match o {
+            ), if replay || (!inflight_full && !collision) => match o {
                 Ok(request) => {
                     if let Some(outgoing) = self.state.handle_outgoing_packet(request)? {
                         network.write(outgoing).await?;
